@@ -74,6 +74,16 @@ func c18LongCorpus(idx int) c18LongScn {
 		return c18LongScn{desc: "corpus: one queue, I=30m B=1; 450 events are in the queue before it is started (one combined task), then 2 single events",
 			iv: 30 * time.Minute, b: 1, binds: one, observe: 1200 * time.Millisecond,
 			steps: []c18LongStep{{"prestart", 0, 0, 450}, {"idle", 400 * time.Millisecond, 0, 1}, {"idle", 250 * time.Millisecond, 0, 1}}}
+	case 34:
+		// observed for longer than any slice a bounded wait could plausibly use: a wait that gives up after some
+		// seconds and lets the task run shows here (the other runs are observed for about a second)
+		// (three queues: the waits of the three later events run side by side, so whatever they do after some
+		// seconds happens within this observation)
+		return c18LongScn{desc: "corpus: I=1h B=1, the hook lives in main, qa and qb; 4 events 200 ms apart (main, qa, qb, main), observed for 12.5 s after the last one",
+			iv: time.Hour, b: 1, observe: 12500 * time.Millisecond,
+			binds: []c18Bind{{hook: 0, name: "main-0", queue: "main", crontab: c18Crontab(0)}, {hook: 0, name: "qa-0", queue: "qa", crontab: c18Crontab(1)},
+				{hook: 0, name: "qb-0", queue: "qb", crontab: c18Crontab(2)}},
+			steps: []c18LongStep{{"idle", 200 * time.Millisecond, 0, 1}, {"idle", 200 * time.Millisecond, 1, 1}, {"idle", 200 * time.Millisecond, 2, 1}, {"idle", 200 * time.Millisecond, 0, 1}}}
 	default:
 		return c18LongScn{desc: "corpus: one queue, I=11s B=2; 5 events, each queued when the queue is empty (or 250 ms after the previous one)",
 			iv: 11 * time.Second, b: 2, binds: one, observe: 1200 * time.Millisecond,
@@ -122,6 +132,9 @@ func c18LongRandom(rng *Rng) c18LongScn {
 			}
 			// a wave may be split over the bindings of the queue: still one series for the hook
 			n := rng.Range(150, 450)
+			if rng.Chance(15) {
+				n = rng.Range(600, 2000) // far beyond any plausible batch size
+			}
 			total += n
 			if len(bs) > 1 && rng.Bool() {
 				k := rng.Range(1, n-1)
